@@ -290,7 +290,10 @@ def verify_target(db, reg, key, timeout_ms=20000, want_smt2=False, findings=(), 
                                 ex.oblige(s2, g, '%s.frame.%s.%s' % (qual, pname, fld), 'frame', key,
                                           {'clause': '%s.%s is not modified' % (pname, fld)})
                     for tr in c.get('trace', []):
+                        cnt = ex.__dict__.setdefault('trace_yields', {})
+                        cnt.setdefault(getattr(tr, '__name__', 'clause'), 0)
                         for oid, g, text in tr(ex, s2, post, val):
+                            cnt[getattr(tr, '__name__', 'clause')] += 1
                             ex.oblige(s2, g, '%s.trace.%s' % (qual, oid), 'trace', key, {'clause': text})
                     if c.get('must_fail'):
                         g = ex.spec_bool(post, c['must_fail'])
@@ -324,6 +327,11 @@ def verify_target(db, reg, key, timeout_ms=20000, want_smt2=False, findings=(), 
         if 'modifies' in c:
             o_ = obl.setdefault('%s.frame' % qual, new_ob('frame', 'only %s is modified' % (c['modifies'] or 'nothing')))
             o_['paths'] = max(1, normal_exits)
+        # a trace clause that never produced an obligation on any explored path decides nothing: vacuity guard
+        for name_, n_ in sorted(getattr(ex, 'trace_yields', {}).items()):
+            obl['%s.trace_applies.%s' % (qual, name_)] = {
+                'verdict': 'unsat' if n_ > 0 else 'vacuous', 'kind': 'vacuity', 'paths': n_, 'ms': 0, 'backend': '-',
+                'clause': 'trace clause %s yields at least one obligation on some path' % name_}
         # discharge
         for vc in all_vcs:
             o = obl.setdefault(vc.oid, new_ob(vc.kind, vc.info.get('clause', '')))
